@@ -357,10 +357,10 @@ func (e *Exec) Judge() *Judgement {
 	}
 	// 7. stranded
 	// deliveries of the last writes may still be in flight: give them up to 2 s before calling one missed
-	var missed int
+	var missed, missedOwn int
 	for try := 0; ; try++ {
 		probe := &Judgement{}
-		missed = e.monitorWatchers(probe, e.W.Events())
+		missed, missedOwn = e.monitorWatchers(probe, e.W.Events())
 		if missed == 0 || try >= 200 {
 			j.Findings = append(j.Findings, probe.Findings...)
 			break
@@ -369,7 +369,8 @@ func (e *Exec) Judge() *Judgement {
 	}
 	if e.Stranded != "" {
 		kind := e.classifyStranded()
-		if missed > 0 {
+		if missed > 0 && missedOwn == 0 {
+			// every miss is a proposal-store watcher's: the Atomix client's subscription race (KF-C15-1)
 			kind = "after-missed-store-event"
 		}
 		j.add("stranded", []string{"C09", "C07", "C04", "C11", "C08"}, "stranded/"+kind, "the system became stable without reaching a final state: %s (%s)", e.Stranded, kind)
